@@ -112,6 +112,19 @@ func (x *Exec) doCallVals(st *State, fr *Frame, cc *ssa.CallCommon, fnv Val, arg
 	}
 	if h, ok := externs[name]; ok {
 		x.extUsed[name] = true
+		// a library function that is handed a *bytes.Buffer, *bytes.Reader or *io.SectionReader
+		// inside an interface calls its methods: a nil pointer in there is a nil dereference
+		for _, a := range args {
+			if iv, isI := a.(IfaceV); isI && iv.Sym == "" && iv.Dyn != nil {
+				if pv, isP := iv.Payload.(PtrV); isP && pv.RootSort != "" {
+					for _, ss := range streamSorts {
+						if pv.RootSort == ss {
+							x.nilCheck(st, fr, pv, instr)
+						}
+					}
+				}
+			}
+		}
 		outs := h(x, st, fr, cc, args, instr)
 		x.continueOutcomes(fr, outs, k)
 		return
